@@ -272,3 +272,19 @@ fn mul(self, rhs: Self) -> (r: Polynomial)
         ''' % FIN),
                         (('before', r'let __v = smap_into_vec'), 'let ghost tm = terms@;\n        '),
                         (('before', r'__r\s*\}\s*$'), final_proof)])
+
+
+# ---------------------------------------------------------------- the term iterators as a bundle for the properties that consume them (C04, C11, C16)
+ITER_SPECS = ['spec/merge_spec.rs', 'spec/kmerge_spec.rs', 'spec/padd_spec.rs', 'spec/perm_spec.rs', 'spec/iter_spec.rs']
+SORT_STUB = '''// slice::sort_unstable (T4): the same elements in non-decreasing order
+#[verifier::external_body] pub fn vec_sort_unstable(v: &mut Vec<u64>)
+    ensures sorted_seq(final(v)@), perm(final(v)@, old(v)@)
+{ unimplemented!() }
+'''
+
+
+def iterator_units():
+    """the real code behind `for (ids, c) in &function`: the four IntoIterator impls and the SortedIds constructors they call"""
+    from vx.units import algebra as al
+    new = al.sorted_ids_units()[0]
+    return [new, sorted_ids_empty()] + sorted_ids_from_units() + [linear_terms(), quadratic_terms(), al.polynomial_terms(), function_terms()]
